@@ -28,6 +28,7 @@ func init() {
 		{Tier: "forms", Bound: 0},
 		{Tier: "repeats", Bound: 1},
 		{Tier: "iface", Bound: 0},
+		{Tier: "layered5", Size: 0, Bound: 0},
 	}
 	callThorough := []Step{
 		{Tier: "direct", Bound: 1, Bound2: true},
@@ -39,21 +40,27 @@ func init() {
 		{Tier: "forms", Bound: 1},
 		{Tier: "repeats", Bound: 1, Bound2: true},
 		{Tier: "iface", Bound: 1},
+		{Tier: "layered5", Size: 1, Bound: 0},
+		{Tier: "layered5", Size: 0, Bound: 1},
 	}
 	for _, p := range []string{"C01", "C02", "C05", "C13"} {
 		Plans[p] = map[string][]Step{"quick": callQuick, "thorough": callThorough}
 	}
+	Plans["C01"] = map[string][]Step{
+		"quick":    append(append([]Step{}, callQuick...), Step{Tier: "illformed", Bound: 1}),
+		"thorough": append(append([]Step{}, callThorough...), Step{Tier: "illformed", Bound: 1, Bound2: true}),
+	}
 	Plans["C06"] = map[string][]Step{
-		"quick":    append(append([]Step{}, callQuick...), Step{Tier: "malformed", Bound: 0}, Step{Tier: "fails3x2", Bound: 0}),
-		"thorough": append(append([]Step{}, callThorough...), Step{Tier: "malformed", Bound: 1}, Step{Tier: "fails3x3", Bound: 0}, Step{Tier: "exact", Size: 0, Bound: 0}),
+		"quick":    append(append([]Step{}, callQuick...), Step{Tier: "malformed", Bound: 0}, Step{Tier: "fails3x2", Bound: 0}, Step{Tier: "redef", Size: 0, Bound: 0}),
+		"thorough": append(append([]Step{}, callThorough...), Step{Tier: "malformed", Bound: 1}, Step{Tier: "fails3x3", Bound: 0}, Step{Tier: "failsM3x2", Bound: 0}, Step{Tier: "exact", Size: 0, Bound: 0}, Step{Tier: "redef", Size: 1, Bound: 0}, Step{Tier: "redef", Size: 0, Bound: 1}),
 	}
 	Plans["C03"] = map[string][]Step{
 		"quick":    {{Tier: "exact", Size: 0, Bound: 1}},
 		"thorough": {{Tier: "exact", Size: 1, Bound: 1}, {Tier: "exact", Size: 0, Bound: 1, Bound2: true}},
 	}
 	Plans["C04"] = map[string][]Step{
-		"quick":    {{Tier: "fails3x2", Bound: 1}},
-		"thorough": {{Tier: "fails3x2", Bound: 1, Bound2: true}, {Tier: "fails3x3", Bound: 1}},
+		"quick":    {{Tier: "fails3x2", Bound: 1}, {Tier: "failsM3x2", Bound: 0}, {Tier: "failsnil3x2", Bound: 0}},
+		"thorough": {{Tier: "fails3x2", Bound: 1, Bound2: true}, {Tier: "fails3x3", Bound: 1}, {Tier: "failsM3x2", Bound: 1}, {Tier: "failsnil3x2", Bound: 1}},
 	}
 }
 
